@@ -1,7 +1,8 @@
 ------------------------------- MODULE Trace -------------------------------
 (* C20 direction B: executions recorded from real application wrappers, validated against
    AppLifecycleOps.Step.  Event: {c, tool, oc, out, app, proc, files, cleanups, cwd}
-   (observation after the call).  Each event is judged from the logged pre-state. *)
+   (observation after the call).  Each event is judged from the logged pre-state.  The first
+   event of every trace is the action "construct" (InitState: there is no wrapper object). *)
 EXTENDS AppLifecycleOps, Json, IOUtils
 
 Tr == JsonDeserialize(IOEnv.TRACE_FILE)
